@@ -343,3 +343,27 @@ def by_neutralising_all(run_case, rules, subs=None, kinds=None, others=()):
             return True
         return pred
     return {fid: make(fid, feature) for fid, feature, _t in rules}
+
+
+def nested_bitstring_segments(T, enc):
+    """The encoding holds a constructed BIT STRING with a constructed segment (known finding F08 region)."""
+    from . import x690
+    try:
+        _v, tr = x690.read_traced(T, enc)
+    except x690.RefError:
+        return False
+    return any(r['T']['k'] == 'BITSTRING' and any(c for c, _l in r.get('segments', ())) for r in tr)
+
+
+def f09_region(T, encs):
+    """Inputs on which the caching wrapper's position renumbering (known finding F09) bites once more than
+    io.DEFAULT_BUFFER_SIZE octets went through a non-seekable stream: a definite-length element decoded through
+    a nested decoder call - constructed elements and untagged CHOICE."""
+    from . import x690
+    if 'CHOICE' in ir.kinds_in(T):
+        return True
+    for e in encs:
+        for top in x690.walk_all(e):
+            if any(n.con and not n.indefinite for n in x690.nodes(top)):
+                return True
+    return False
